@@ -69,6 +69,7 @@ def decorate(ch: Choices, cer: gw.Ceremony, base: Psbt) -> tuple[Psbt, set[Atom]
     """`base` with optional fields added by draw; and the atoms every copy of it must carry."""
     p = deepcopy(base)
     v2 = p.version == 2
+    sp = v2 and ch.chance(1, 3, "deco.sp?")  # BIP375 fields have no version 0 spelling: kept to a third of the v2 runs
     serial = itertools.count(1)
     pinned: set[Atom] = set()
 
@@ -109,7 +110,7 @@ def decorate(ch: Choices, cer: gw.Ceremony, base: Psbt) -> tuple[Psbt, set[Atom]
                 m.musig2_pub_nonces[a + agg + leaf] = a + b
             if which & 4:
                 m.musig2_partial_sigs[b + agg + leaf] = _filler(ch, 32, "deco.musig2.sig")
-        if v2 and on("deco.in.sp"):
+        if sp and on("deco.in.sp"):
             scan = key("deco.sp.scan")
             which = 1 + ch.draw(3, "deco.sp.which")
             if which & 1:
@@ -155,7 +156,7 @@ def decorate(ch: Choices, cer: gw.Ceremony, base: Psbt) -> tuple[Psbt, set[Atom]
                 taproot_hd(o, "deco.out.tr.hd")
         if on("deco.out.musig2"):
             o.musig2_participant_pub_keys[key("deco.out.musig2.agg")] = [key("deco.out.musig2.a"), key("deco.out.musig2.b")]
-        if v2 and on("deco.out.sp"):
+        if sp and on("deco.out.sp"):
             # BIP375: the address paid; with it the script is optional (computed once the inputs are fixed)
             o.sp_v0_info = key("deco.out.sp.scan") + key("deco.out.sp.spend")
             if ch.draw(2, "deco.out.sp.label?"):
@@ -168,7 +169,7 @@ def decorate(ch: Choices, cer: gw.Ceremony, base: Psbt) -> tuple[Psbt, set[Atom]
             p.hd_key_paths[bip32.BIP32KeyData.b58decode(c.account_xpub(0)).serialize()] = BIP32KeyOrigin(c.fingerprint, [H + 48, H, H])
     if on("deco.g.message"):
         p.signed_message = _filler(ch, ch.pick([5, 0, 70], "deco.g.message.len"), "deco.g.message")
-    if v2 and on("deco.g.sp"):
+    if sp and on("deco.g.sp"):
         scan = key("deco.g.sp.scan")
         p.sp_ecdh_shares[scan] = key("deco.g.sp.share")
         if ch.draw(2, "deco.g.sp.proof?"):
